@@ -10,6 +10,15 @@
 // object) is a read of that field; the methods promoted from an embedded
 // interface field F are summarised as "Acc F R".  Everything outside these
 // shapes is an error (the check then reports a broken obligation).
+//
+// A slice-typed field f has a second location "T.f[]", its backing array (elements and
+// spare capacity), which a derived object that copied the slice header shares with the
+// object it was derived from: every read of f is also a read of f[];
+// append(x.f, ...) and append(x.f[a:b], ...) (anything but a three-index slice, which
+// leaves no capacity to write into), x.f[i] = v, copy(x.f, ...), clear(x.f) are writes
+// of f[], for x the receiver or a local struct copy of it (c := *recv) whose field f has
+// not been reassigned.  A slice handed to another function or copied into a local
+// variable is out of sight.
 package main
 
 import (
@@ -89,6 +98,8 @@ type fieldInfo struct {
 	id2     int // pointee of patomic, channel of chan, referent of a serialised field
 	serial  bool
 	methods []string
+	hasArr  bool // slice-typed plain field
+	arr     int  // its backing array "T.f[]"
 }
 
 type c09ids struct {
@@ -119,6 +130,9 @@ type c09x struct {
 	pos     token.Pos
 	cond    int             // nesting depth of conditional / loop bodies
 	alias   map[string]bool // local variables that are plain copies of the receiver pointer
+	// local struct copies of the receiver (c := *recv): c.f shares the backing array of recv.f
+	// until c.f is assigned; valias[c][f] = c.f was reassigned
+	valias map[string]map[string]bool
 }
 
 func (x *c09x) errf(format string, a ...interface{}) {
@@ -356,9 +370,41 @@ func (x *c09x) fieldOf(e ast.Expr) *fieldInfo {
 	return nil
 }
 
+// the slice field whose backing array e denotes with capacity to write into: x.f, x.f[a:b]
+// (not x.f[a:b:c]), for x the receiver or a local struct copy of it whose f was not reassigned
+func (x *c09x) backing(e ast.Expr) *fieldInfo {
+	switch t := e.(type) {
+	case *ast.ParenExpr:
+		return x.backing(t.X)
+	case *ast.SliceExpr:
+		if t.Slice3 {
+			return nil
+		}
+		return x.backing(t.X)
+	case *ast.SelectorExpr:
+		if f := x.fieldOf(t); f != nil {
+			if f.hasArr {
+				return f
+			}
+			return nil
+		}
+		if id, ok := t.X.(*ast.Ident); ok {
+			if re, ok := x.valias[id.Name]; ok && !re[t.Sel.Name] {
+				if f, ok := x.fields[t.Sel.Name]; ok && f.hasArr {
+					return f
+				}
+			}
+		}
+	}
+	return nil
+}
+
 func (x *c09x) read(f *fieldInfo) []act {
 	switch f.kind {
 	case fPlain, fIface, fPAtomic, fChan:
+		if f.hasArr {
+			return []act{{k: 'a', id: f.id}, {k: 'a', id: f.arr}}
+		}
 		return []act{{k: 'a', id: f.id}}
 	case fAtomic, fSafe:
 		return []act{{k: 't', id: f.id}}
@@ -478,7 +524,7 @@ func (x *c09x) embeddedOf(kinds ...int) *fieldInfo {
 	return nil
 }
 
-var c09builtins = map[string]bool{"len": true, "cap": true, "append": true, "make": true, "copy": true, "new": true,
+var c09builtins = map[string]bool{"len": true, "cap": true, "append": true, "make": true, "copy": true, "new": true, "clear": true,
 	"panic": true, "delete": true, "min": true, "max": true, "string": true, "int": true, "int8": true, "int32": true,
 	"int64": true, "uint64": true, "uint32": true, "uint8": true, "bool": true, "float64": true, "byte": true}
 
@@ -520,13 +566,14 @@ func (x *c09x) inline(name string, body *ast.BlockStmt, recv string) []act {
 		return nil
 	}
 	x.stack = append(x.stack, name)
-	old, oldAlias, oldCond := x.recv, x.alias, x.cond
+	old, oldAlias, oldVal, oldCond := x.recv, x.alias, x.valias, x.cond
 	if !strings.HasPrefix(name, "lit@") { // a method body has its own locals; a closure shares them
 		x.alias = map[string]bool{}
+		x.valias = map[string]map[string]bool{}
 	}
 	x.recv = recv
 	out := x.fnBody(body)
-	x.recv, x.alias, x.cond = old, oldAlias, oldCond
+	x.recv, x.alias, x.valias, x.cond = old, oldAlias, oldVal, oldCond
 	x.stack = x.stack[:len(x.stack)-1]
 	return out
 }
@@ -568,6 +615,11 @@ func (x *c09x) call(c *ast.CallExpr) []act {
 			}
 			x.errf("close of something that is not a channel field")
 			return nil
+		}
+		if (fn.Name == "append" || fn.Name == "copy" || fn.Name == "clear") && len(c.Args) > 0 {
+			if f := x.backing(c.Args[0]); f != nil {
+				return append(args, act{k: 'a', id: f.arr, w: true})
+			}
 		}
 		if len(x.spec.globals) > 0 {
 			for _, g := range x.spec.funcs {
@@ -704,6 +756,18 @@ func (x *c09x) assignTarget(lhs ast.Expr, alsoRead bool) []act {
 	if ix, ok := lhs.(*ast.IndexExpr); ok && x.isRecv(ix.X) && x.isSlice {
 		return append(x.ex(ix.Index), act{k: 'a', id: x.elems, w: true})
 	}
+	if ix, ok := lhs.(*ast.IndexExpr); ok {
+		if f := x.backing(ix.X); f != nil { // x.f[i] = v
+			return append(append(x.ex(ix.X), x.ex(ix.Index)...), act{k: 'a', id: f.arr, w: true})
+		}
+	}
+	if se, ok := lhs.(*ast.SelectorExpr); ok { // c.f = ... on a struct copy of the receiver: c.f no longer shares recv.f's array
+		if id, ok := se.X.(*ast.Ident); ok {
+			if re, ok := x.valias[id.Name]; ok && x.cond == 0 {
+				re[se.Sel.Name] = true
+			}
+		}
+	}
 	if id, ok := lhs.(*ast.Ident); ok && !x.isRecv(id) {
 		return nil
 	}
@@ -727,6 +791,11 @@ func (x *c09x) stmt(s ast.Stmt) []act {
 						x.alias[id.Name] = true
 					} else {
 						delete(x.alias, id.Name)
+					}
+					if st, ok := r.(*ast.StarExpr); ok && x.isRecv(st.X) && !x.isSlice {
+						x.valias[id.Name] = map[string]bool{}
+					} else {
+						delete(x.valias, id.Name)
 					}
 				}
 			}
@@ -886,6 +955,7 @@ func (x *c09x) runSpec(spec c09Spec) []c09unit {
 	x.spec = spec
 	x.fields = map[string]*fieldInfo{}
 	x.alias = map[string]bool{}
+	x.valias = map[string]map[string]bool{}
 	x.cond = 0
 	x.forder = nil
 	x.isSlice = false
@@ -953,6 +1023,11 @@ func (x *c09x) runSpec(spec c09Spec) []c09unit {
 			}
 			for _, n := range f.Names {
 				x.addField(n.Name, kind, ms)
+				if at, ok := f.Type.(*ast.ArrayType); ok && at.Len == nil && kind == fPlain {
+					fi := x.fields[n.Name]
+					fi.hasArr = true
+					fi.arr = x.ids.alloc(spec.name + "." + n.Name + "[]")
+				}
 			}
 		}
 	case *ast.ArrayType:
